@@ -295,6 +295,12 @@ func aliasCase(rep *Report, arena *guardArena, s *glue.Subject, d MD, idx int) {
 		rep.Sample("C07", map[string]interface{}{"type": tn, "input_hex": hx(stream)})
 	}
 
+	// every seventh case: the stream ends in a dangling tag byte, so Unmarshal fails after it has decoded everything
+	// before it; the half-decoded message it leaves behind must not refer to the input either
+	corrupted := idx%7 == 6
+	if corrupted {
+		stream = append(append([]byte{}, stream...), 0xff)
+	}
 	// ---- (a)+(b): page-guarded input
 	in := arena.place(stream)
 	if in == nil {
@@ -322,10 +328,13 @@ func aliasCase(rep *Report, arena *guardArena, s *glue.Subject, d MD, idx int) {
 		rep.Violate("C07", "alias/unmarshal-faults-on-guarded-input", tn, "Unmarshal writes to its (read-only mapped) input or reads past its end: "+pmsg, rc)
 		return
 	}
-	if uerr != nil {
+	if uerr != nil && !corrupted {
 		arena.prot(syscall.PROT_READ | syscall.PROT_WRITE)
 		rep.Inconclusive("C07", "well-typed-stream-rejected")
 		return
+	}
+	if corrupted {
+		rep.Count("C07", "failed-unmarshals-then-input-unmapped", 1)
 	}
 	if !bytes.Equal(in, inCopy) {
 		rep.Violate("C07", "alias/unmarshal-modifies-input", tn, "input bytes changed during Unmarshal", rc)
@@ -351,6 +360,9 @@ func aliasCase(rep *Report, arena *guardArena, s *glue.Subject, d MD, idx int) {
 	}
 	if fp1 != fp2 || !bytes.Equal(b1, b2) {
 		rep.Violate("C07", "alias/message-aliases-input(changed)", tn, "overwriting the input changed the message: "+firstDiff(b1, b2), rc)
+		return
+	}
+	if corrupted {
 		return
 	}
 
@@ -412,6 +424,24 @@ func aliasCase(rep *Report, arena *guardArena, s *glue.Subject, d MD, idx int) {
 	pan, pmsg = safely(func() { out, merr = oc.f() })
 	if pan || merr != nil {
 		return // C01/C04 territory
+	}
+	// the bytes handed out belong to the caller: later marshals (of this or another message, through any entry
+	// point) leave them alone
+	first := append([]byte{}, out...)
+	pan, _ = safely(func() {
+		for _, x := range []proto.Message{other, subj} {
+			_, _ = plainOpts.Marshal(x)
+			_, _ = detOpts.MarshalAppend(nil, x)
+			if pm := x.ProtoReflect().ProtoMethods(); pm != nil && pm.Marshal != nil {
+				_, _ = pm.Marshal(protoiface.MarshalInput{Message: x.ProtoReflect()})
+				_, _ = pm.Marshal(protoiface.MarshalInput{Message: x.ProtoReflect(), Buf: make([]byte, 0)})
+			}
+		}
+	})
+	rep.Count("C07", "earlier-output-intact-checks", 1)
+	if !bytes.Equal(out, first) {
+		rep.Violate("C07", "alias/marshal-outputs-share-memory", tn, oc.name+": the bytes returned by an earlier Marshal changed when other messages were marshalled afterwards: "+firstDiff(out, first), rc)
+		return
 	}
 	fpA := Fingerprint(subj)
 	for i := range out {
